@@ -237,5 +237,34 @@ theorem accrue_split (b : Broker ℝ) (t0 t1 t2 : Time) (r : ℝ) (hl : b.lastAc
   rw [c2, c1, c3, bal_split b.cash r w.markup (t1 - t0) (t2 - t1) (sub_nonneg.mpr h01) (sub_nonneg.mpr h12) hm hp]
   congr 1; ring
 
+/-! ### monotonicity (added last) -/
+
+theorem yearsOf_mono (d1 d2 : Int) (h : d1 ≤ d2) : yearsOf d1 ≤ yearsOf d2 := by
+  unfold yearsOf
+  exact div_le_div_of_nonneg_right (by exact_mod_cast h) (le_of_lt usPerYear_pos)
+
+/-- **Longer pays more**: the balance of idle cash is monotone in the elapsed time (rate ≥ markup) -/
+theorem idle_growth_monotone_time (cash rate markup : ℝ) (d1 d2 : Int) (hc : 0 < cash) (hr : markup ≤ rate)
+    (h1 : 0 ≤ d1) (h12 : d1 ≤ d2) : bal cash rate markup d1 ≤ bal cash rate markup d2 := by
+  rw [idle_growth cash rate markup d1 hc hr h1, idle_growth cash rate markup d2 hc hr (le_trans h1 h12)]
+  have hb : (1 : ℝ) ≤ 1 + rate - markup := by linarith
+  exact mul_le_mul_of_nonneg_left (Real.rpow_le_rpow_of_exponent_le hb (yearsOf_mono d1 d2 h12)) (le_of_lt hc)
+
+/-- **A higher reference rate pays more, a higher markup less**: the balance of idle cash is monotone in the net
+    rate `rate − markup` -/
+theorem idle_growth_monotone_rate (cash r1 r2 m1 m2 : ℝ) (dt : Int) (hc : 0 < cash) (h1 : m1 ≤ r1)
+    (h12 : r1 - m1 ≤ r2 - m2) (hdt : 0 ≤ dt) : bal cash r1 m1 dt ≤ bal cash r2 m2 dt := by
+  rw [idle_growth cash r1 m1 dt hc h1 hdt, idle_growth cash r2 m2 dt hc (by linarith) hdt]
+  have hb : (0 : ℝ) ≤ 1 + r1 - m1 := by linarith
+  exact mul_le_mul_of_nonneg_left
+    (Real.rpow_le_rpow hb (by linarith) (yearsOf_nonneg dt hdt)) (le_of_lt hc)
+
+/-- the interest credited on idle cash is exactly the growth of the balance, and is not negative -/
+theorem idle_interest_nonneg (cash rate markup : ℝ) (dt : Int) (hc : 0 < cash) (hr : markup ≤ rate) (hdt : 0 ≤ dt) :
+    0 ≤ bal cash rate markup dt - cash := by
+  have h0 := idle_growth_monotone_time cash rate markup 0 dt hc hr (le_refl 0) hdt
+  have hz : bal cash rate markup 0 = cash := by
+    unfold bal; rw [accrue_same_instant_zero]; ring
+  linarith
 end
 end TV
